@@ -49,9 +49,23 @@ def _equiv_case(seed):
     read = Hh.derive_read(rng, exons, kind, params.delta)
     if read is None:
         return None, []
-    def run(isos, rd):
+    # polyA / polyT evidence: none, a tail at the read's 3' end, or external + internal positions near either end
+    pmode = rng.choice(["none", "none", "polya", "polyt", "both_a", "both_t"])
+    re_, rs_ = read[-1][1], read[0][0]
+    ext_a = int_a = ext_t = int_t = -1
+    if pmode in ("polya", "both_a"):
+        ext_a = re_ - rng.randint(0, 25)
+        if pmode == "both_a":
+            int_a = re_ - rng.randint(0, 400)
+    if pmode in ("polyt", "both_t"):
+        ext_t = rs_ + rng.randint(0, 25)
+        if pmode == "both_t":
+            int_t = rs_ + rng.randint(0, 400)
+    polya = (ext_a, ext_t, int_a, int_t)
+
+    def run(isos, rd, pa=polya):
         gi = Hh.gene_info_of(isos, params.delta)
-        ra, info = Hh.assign(gi, params, rd)
+        ra, info = Hh.assign(gi, params, rd, pa)
         corr = Hh.correct(gi, params, ra, info)
         return (ra.assignment_type.name, sorted(m.assigned_transcript for m in ra.isoform_matches if m.assigned_transcript),
                 sorted(e.event_type.name for m in ra.isoform_matches[:1] for e in m.match_subclassifications), corr)
@@ -59,20 +73,22 @@ def _equiv_case(seed):
     problems = []
     k = rng.choice([1, 7, 255, 256, 1000, 12345])
     sh = lambda ex: [(a + k, b + k) for a, b in ex]
-    shifted = run([(t, s, sh(e)) for t, s, e in isoforms], sh(read))
+    shp = tuple(x + k if x != -1 else -1 for x in polya)
+    shifted = run([(t, s, sh(e)) for t, s, e in isoforms], sh(read), shp)
     if shifted[:3] != base[:3] or shifted[3] != sh(base[3]):
         problems.append("shift by %d: %s -> %s" % (k, base, shifted))
     C = max(e[-1][1] for _, _, e in isoforms) + max(r[1] for r in read) + 1000
     mi = lambda ex: [(C - b, C - a) for a, b in reversed(ex)]
     flip = {"+": "-", "-": "+"}
-    mirrored = run([(t, flip[s], mi(e)) for t, s, e in isoforms], mi(read))
+    mp = lambda x: C - x if x != -1 else -1
+    mirrored = run([(t, flip[s], mi(e)) for t, s, e in isoforms], mi(read), (mp(ext_t), mp(ext_a), mp(int_t), mp(int_a)))
     if mirrored[0] != base[0] or mirrored[1] != base[1]:
         problems.append("reflection: type / isoforms %s -> %s" % (base[:2], mirrored[:2]))
     elif sorted(MIRROR_EVENT(n) for n in mirrored[2]) != base[2]:
         problems.append("reflection: events %s -> %s (left/right not swapped)" % (base[2], mirrored[2]))
     elif mirrored[3] != mi(base[3]):
         problems.append("reflection: corrected exons %s -> %s" % (base[3], mirrored[3]))
-    return {"kind": kind, "isoform": tid, "read": read, "base": base}, problems
+    return {"kind": kind, "isoform": tid, "read": read, "polya": polya, "base": base}, problems
 
 
 def replay_equiv(d):
